@@ -10,7 +10,7 @@ RULE = ("S-syn listings x rules nesting $or/$and/$and_any_order to depth 3 at in
         "start / hit windows. Non-trivial = model finds the rule or one mutation from a found case; distinct = (rule, listing).")
 FLOOR = {"quick": 300, "thorough": 4000}
 ANCHOR_HINTS = ["node_branch_root", "ast_builder", "pattern_node_builder", "deref_classes"]
-REQUIRED_EVENTS = ["hits_located"]
+REQUIRED_EVENTS = ["hits_located", "law_cases_compared"]
 
 
 def feat(rng):
@@ -62,11 +62,209 @@ def nesting_stratum(ctx, d, n):
         d.run_pattern(pattern, "base", True)
 
 
+REGFAM64 = {"%rax": "&genreg.{}.64", "%rbx": "&genreg.{}.64", "%rcx": "&genreg.{}.64", "%rdx": "&genreg.{}.64",
+            "%rsi": "&indreg.{}.64", "%rdi": "&indreg.{}.64", "%rsp": "&stackreg.{}.64", "%rbp": "&basereg.{}.64"}
+
+
+def law_stratum(ctx, d, n):
+    """Model-free composition laws, real against real, so that alternatives R-dsl does not interpret (capture definitions,
+    register-family captures, whole $deref items) are covered as well:
+      found(C[$or: [A, B]])            == found(C[A]) or found(C[B])
+      found(C[$and_any_order: [A, B]]) == found(C[$and: [A, B]]) or found(C[$and: [B, A]])
+      C[$and: [A, B]]                  reports the hits of C with A, B written in its place
+    C is a positive context executed once (the items around the operator); for a one-instruction C the all-matches address
+    lists are compared as sets (a union), otherwise found/not found. Levels: instruction, operand, $deref field."""
+    import copy
+    from jv import dsl, listing as L, real as R, refline
+    rng = ctx.rng
+    cap = [0]
+
+    def fresh(prefix):
+        cap[0] += 1
+        return f"&{prefix}{cap[0]}"
+
+    def addrs(pattern, prep):
+        text = R.dump_rule({"pattern": pattern})
+        r = R.match(d.ws.write("law.yaml", text), prep.path, ret="list", search="all", only_addr=True)
+        ctx.ran()
+        return text, r
+
+    for _ in range(n):
+        prep = d.new_listing(rng.choice(["tiny", "dups", "mixed", "regs"]))
+        insts = prep.sinsts
+        level = rng.choice(["instruction", "operand", "operand", "deref", "deref"])
+        cands = [k for k, s_ in enumerate(insts) if RG.clean(s_.mnem) and not s_.annotation
+                 and (level == "instruction" or (s_.ops and all(RG.clean(o) or "(" in o for o in s_.ops)))
+                 and (level != "deref" or any(refline.mem_components(o) and refline.mem_components(o)[1] for o in s_.ops if "(" in o and ":" not in o))]
+        if not cands:
+            ctx.event("law_case_without_candidate")
+            continue
+        k = rng.choice(cands)
+        si = insts[k]
+        other = insts[rng.randrange(len(insts))]
+
+        def alt_inst(s_):
+            r = rng.random()
+            if r < 0.35 or not RG.clean(s_.mnem):
+                return s_.mnem if RG.clean(s_.mnem) else "zzzq"
+            if r < 0.55:
+                return fresh("i")
+            if r < 0.7:
+                return "zzzq"
+            names = [o for o in s_.ops if RG.clean(o)]
+            return {s_.mnem: names[:rng.randint(1, len(names))]} if names and len(names) == len(s_.ops) else s_.mnem
+
+        def alt_op(o):
+            r = rng.random()
+            if "(" in o:
+                comp = refline.mem_components(o) if ":" not in o else None
+                if comp and comp[1] and r < 0.6:
+                    kk, a, b, c = comp
+                    body = {"main_reg": a}
+                    if b:
+                        body["register_multiplier"] = b
+                    if c and b:
+                        body["constant_multiplier"] = c
+                    if kk:
+                        body["constant_offset"] = kk
+                    return {"$deref": body}
+                return fresh("o") if r < 0.8 else "zzzq"
+            if r < 0.3:
+                return o
+            if r < 0.45 and len(o) > 2:
+                return o[1:]
+            if r < 0.65:
+                return fresh("o")
+            if r < 0.8 and o in REGFAM64:
+                return REGFAM64[o].format(fresh("x")[1:])
+            return "zzzq"
+
+        def alt_field(v):
+            r = rng.random()
+            if r < 0.35:
+                return v
+            if r < 0.6:
+                return fresh("d")
+            if r < 0.75 and v in REGFAM64:
+                return REGFAM64[v].format(fresh("y")[1:])
+            if r < 0.85 and v.startswith("%"):
+                return v[1:]
+            return "zzzq"
+
+        op_name = rng.choice(["$or", "$or", "$and_any_order", "$and"]) if level != "deref" else "$or"
+        # context: the item itself, optionally with its neighbours written literally
+        pre = [insts[k - 1].mnem] if k > 0 and RG.clean(insts[k - 1].mnem) and rng.random() < 0.4 else []
+        post = [insts[k + 1].mnem] if k + 1 < len(insts) and RG.clean(insts[k + 1].mnem) and rng.random() < 0.4 else []
+        if level == "instruction":
+            if op_name == "$or":
+                A, B = alt_inst(si), alt_inst(rng.choice([si, other]))
+                if rng.random() < 0.5:
+                    A, B = B, A
+                variants = [[A], [B]]
+            else:
+                if k + 1 >= len(insts):
+                    continue
+                A, B = alt_inst(si), alt_inst(insts[k + 1])
+                post = []
+                variants = [[A, B], [B, A]] if op_name == "$and_any_order" else [[A, B]]
+                if rng.random() < 0.5 and op_name == "$and_any_order":
+                    A, B = B, A
+            build = lambda body: pre + body + post           # noqa: E731
+            marked = build([{op_name: [A, B]}])
+            expansions = [build(v) for v in variants]
+        elif level == "operand":
+            p = rng.randrange(len(si.ops))
+            lits = [(o if RG.clean(o) else fresh("o")) for o in si.ops]
+            if op_name == "$or":
+                A, B = alt_op(si.ops[p]), alt_op(rng.choice(si.ops + (other.ops or ["%rax"])))
+                if rng.random() < 0.5:
+                    A, B = B, A
+                variants, width = [[A], [B]], 1
+            else:
+                if p + 1 >= len(si.ops):
+                    continue
+                A, B = alt_op(si.ops[p]), alt_op(si.ops[p + 1])
+                variants, width = ([[A, B], [B, A]] if op_name == "$and_any_order" else [[A, B]]), 2
+                if rng.random() < 0.5 and op_name == "$and_any_order":
+                    A, B = B, A
+            build = lambda body: pre + [{si.mnem: lits[:p] + body + lits[p + width:]}] + post      # noqa: E731
+            marked = build([{op_name: [A, B]}])
+            expansions = [build(v) for v in variants]
+        else:
+            mems = [p for p, o in enumerate(si.ops) if "(" in o and ":" not in o and refline.mem_components(o) and refline.mem_components(o)[1]]
+            p = rng.choice(mems)
+            kk, a, b, c = refline.mem_components(si.ops[p])
+            body = {"main_reg": a}
+            if b:
+                body["register_multiplier"] = b
+            if c and b:
+                body["constant_multiplier"] = c
+            if kk:
+                body["constant_offset"] = kk
+            if c and not b:
+                ctx.event("law_case_scale_without_index_skipped")
+                continue
+            fname = rng.choice(list(body))
+            A, B = alt_field(body[fname]), alt_field(rng.choice([body[fname], "%rbp", "0x10", "8", "%rax"]))
+            if rng.random() < 0.5:
+                A, B = B, A
+            lits = [(o if RG.clean(o) else fresh("o")) for o in si.ops]
+
+            def build(val):
+                bd = dict(body)
+                bd[fname] = val
+                return pre + [{si.mnem: lits[:p] + [{"$deref": bd}] + lits[p + 1:]}] + post
+            marked = build([{"$or": [A, B]}])
+            expansions = [build(A), build(B)]
+        tm, rm = addrs(marked, prep)
+        outs = [addrs(e, prep) for e in expansions]
+        if any(r[0] != "ok" for _, r in outs):
+            ctx.event("law_case_expansion_rejected_by_real_code")
+            continue
+        ctx.event("law_cases_compared")
+        single = not pre and not post and (level != "instruction" or op_name == "$or")
+        union = sorted(set(x for _, r in outs for x in r[1]), key=lambda x: int(x, 16))
+        found = bool(union)
+        ctx.case((tm, prep.expect), found, stratum=f"law/{level}/{op_name[1:]}", outcome="found" if found else "not found")
+        why = None
+        if rm[0] != "ok":
+            why = f"real raised {rm[1]}: {rm[2]} although every expansion compiles"
+        elif single and "multisec" != d.style and sorted(set(rm[1]), key=lambda x: int(x, 16)) != union:
+            why = f"{op_name} reports {rm[1][:8]} but its expansions report {union[:8]}"
+        elif bool(rm[1]) != found:
+            why = f"{op_name} found={bool(rm[1])} but its expansions found={found}"
+        if why:
+            ctx.disagreement({"rule": tm, "listing": prep.text, "expansions": [t for t, _ in outs], "single": single, "desc": "law"},
+                             why + f" | expansions: {[t for t, _ in outs]} | regex={rm[2] if rm[0] == 'ok' else ''}"[:900])
+        elif found:
+            ctx.sample("law", {"rule": tm, "expansions": [t for t, _ in outs], "addresses": union[:6]})
+
+
+def replay_law(ctx, case):
+    from jv import real as R
+    ws = R.Workspace()
+    lp = ws.write("l.s", case["listing"])
+
+    def addrs(text):
+        return R.match(ws.write("law.yaml", text), lp, ret="list", search="all", only_addr=True)
+    rm = addrs(case["rule"])
+    outs = [addrs(t) for t in case["expansions"]]
+    ctx.ran()
+    if any(r[0] != "ok" for r in outs):
+        return
+    union = sorted(set(x for r in outs for x in r[1]), key=lambda x: int(x, 16))
+    if rm[0] != "ok" or (case.get("single") and sorted(set(rm[1]), key=lambda x: int(x, 16)) != union) or bool(rm[1]) != bool(union):
+        ctx.disagreement(case, f"operator reports {rm[1] if rm[0] == 'ok' else rm[1:]} but its expansions report {union[:8]}")
+
+
 def run_shard(ctx):
     d = drive.Driver(ctx, feat, flags="random", styles=("mixed", "runs", "dups"))
     d.loop(3000, 250000)
     nesting_stratum(ctx, d, ctx.share(180, 6000))
+    law_stratum(ctx, d, ctx.share(480, 20000))
 
 
 def replay(ctx, case):
+    if case.get("desc") == "law":
+        return replay_law(ctx, case)
     drive.replay_dsl(ctx, case)
